@@ -73,389 +73,399 @@ def run(ck):
                   "documented as a shortcut for Event('_ctrl', 'X') is a classmethod returning "
                   "cls('_ctrl', 'X') and ControlBlock handles 'X'", 'docs', 2)
 
-    g = ck.cfg(rf.fid, 'M1')
-    # ------------------------------------------------------------------ R08.1
-    starts = nodes_calling(g, 'start')
-    ck.need(R1, len(starts) == 1, "run_forever: the blk.start() call was not recognised")
-    s = starts[0]
-    sc = node_calls(s, 'start')[0]
-    succ = [g.nodes[v] for v, lab in g.succ[s.id] if lab != 'exc']
-    adds = nodes_where(g, lambda n: any(call_name(c) == 'add' and recv(c) == 'started_blocks'
-                                        for c in node_calls(n)))
-    ok = len(succ) == 1 and succ[0] in adds and \
-        [norm(a) for a in node_calls(succ[0], 'add')[0].args] == [recv(sc)]
-    ck.ob(R1, f"{rf.fid} :: add follows start", ok,
-          "started_blocks.add(blk) is the immediate successor of blk.start()" if ok else
-          "a block is recorded as started before its start() returned, or not immediately after "
-          "(a failing start() would still be 'stopped', or a started block would be missed)",
-          rf, s.ast)
-    muts = [x for x in own_nodes(rf.node) if isinstance(x, ast.Call) and isinstance(x.func, ast.Attribute)
-            and recv(x) == 'started_blocks' and x.func.attr in ('add', 'discard', 'remove', 'clear', 'pop',
-                                                                'update', 'difference_update')]
-    assigns = [x for x in own_nodes(rf.node) if isinstance(x, (ast.Assign, ast.AugAssign)) and
-               any(isinstance(t, ast.Name) and t.id == 'started_blocks'
-                   for t in (x.targets if isinstance(x, ast.Assign) else [x.target]))]
-    ok = len(muts) == 1 and len(assigns) == 1 and norm(assigns[0].value) == 'set()'
-    ck.ob(R1, f"{rf.fid} :: started_blocks mutations", ok,
-          "one initialisation (empty set) and one add" if ok else
-          f"started_blocks has other mutations: {[norm1(m) for m in muts]} {[norm1(a) for a in assigns]}",
-          rf, rf.node)
+    with ck.section('R08.1'):
+        g = ck.cfg(rf.fid, 'M1')
+        # ------------------------------------------------------------------ R08.1
+        starts = nodes_calling(g, 'start')
+        ck.need(R1, len(starts) == 1, "run_forever: the blk.start() call was not recognised")
+        s = starts[0]
+        sc = node_calls(s, 'start')[0]
+        succ = [g.nodes[v] for v, lab in g.succ[s.id] if lab != 'exc']
+        adds = nodes_where(g, lambda n: any(call_name(c) == 'add' and recv(c) == 'started_blocks'
+                                            for c in node_calls(n)))
+        ok = len(succ) == 1 and succ[0] in adds and \
+            [norm(a) for a in node_calls(succ[0], 'add')[0].args] == [recv(sc)]
+        ck.ob(R1, f"{rf.fid} :: add follows start", ok,
+              "started_blocks.add(blk) is the immediate successor of blk.start()" if ok else
+              "a block is recorded as started before its start() returned, or not immediately after "
+              "(a failing start() would still be 'stopped', or a started block would be missed)",
+              rf, s.ast)
+        muts = [x for x in own_nodes(rf.node) if isinstance(x, ast.Call) and isinstance(x.func, ast.Attribute)
+                and recv(x) == 'started_blocks' and x.func.attr in ('add', 'discard', 'remove', 'clear', 'pop',
+                                                                    'update', 'difference_update')]
+        assigns = [x for x in own_nodes(rf.node) if isinstance(x, (ast.Assign, ast.AugAssign)) and
+                   any(isinstance(t, ast.Name) and t.id == 'started_blocks'
+                       for t in (x.targets if isinstance(x, ast.Assign) else [x.target]))]
+        ok = len(muts) == 1 and len(assigns) == 1 and norm(assigns[0].value) == 'set()'
+        ck.ob(R1, f"{rf.fid} :: started_blocks mutations", ok,
+              "one initialisation (empty set) and one add" if ok else
+              f"started_blocks has other mutations: {[norm1(m) for m in muts]} {[norm1(a) for a in assigns]}",
+              rf, rf.node)
 
-    # ------------------------------------------------------------------ R08.2
-    stop = [n for n in nodes_calling(g, '_stop_sblocks')
-            if any(isinstance(x, ast.Await) for x in walk_shallow(n.ast))]
-    ck.need(R2, len(stop) == 1, "run_forever: awaited _stop_sblocks call not recognised")
-    okarg = [norm(a) for a in node_calls(stop[0], '_stop_sblocks')[0].args] == ['started_blocks']
-    nothing = [n for n in g.nodes if n.kind == 'branch' and not n.polarity and
-               norm(n.test.ast) == 'started_blocks']
-    simw = nodes_writing_attr(g, '_simtask')
-    ck.need(R2, simw, "run_forever does not record the simulation task")
-    p = g.path_avoiding(simw[0], [g.exit, g.raise_exit], avoid=stop + nothing, start_successors_only=True)
-    ck.ob(R2, f"{rf.fid} :: clean-up on all paths", p is None and okarg,
-          "once the simulation task is recorded, every path to an exit stops the started blocks"
-          if p is None and okarg else
-          "a path leaves run_forever without stopping the blocks that were started", rf, stop[0].ast,
-          witness=path_witness(g, p))
-    # the pending-cancellation absorber precedes the clean-up
-    hs = [n for n in g.nodes if n.kind == 'handler' and g.pred[n.id] and
-          handler_types(n.ast) == ['CancelledError']]
-    ok = any(g.dominates(h, stop[0]) or stop[0].id in g.reachable_from(h) for h in hs)
-    main = [n for n in g.nodes if n.kind == 'handler' and g.pred[n.id] and
-            set(handler_types(n.ast)) >= {'Exception', 'CancelledError'}]
-    absorb = nodes_where(g, lambda n: any(isinstance(x, ast.Await) and call_name(x.value) == 'sleep'
-                                          for x in walk_shallow(n.ast)) and main and
-                         n.id in g.reachable_from(main[0]) and stop[0].id in g.reachable_from(n))
-    okabs = bool(absorb) and any(
-        any(g.nodes[v].kind == 'dispatch' and any(g.nodes[h].kind == 'handler' and
-                                                  handler_types(g.nodes[h].ast) == ['CancelledError']
-                                                  for h, _ in g.succ[v])
-            for v, lab in g.succ[a.id] if lab == 'exc') for a in absorb)
-    ck.ob(R2, f"{rf.fid} :: pending cancellation absorbed", okabs,
-          "a cancellation left pending by abort()+raise is absorbed before the clean-up awaits"
-          if okabs else "a pending cancellation could interrupt the clean-up", rf,
-          absorb[0].ast if absorb else rf.node)
+    with ck.section('R08.2'):
+        # ------------------------------------------------------------------ R08.2
+        stop = [n for n in nodes_calling(g, '_stop_sblocks')
+                if any(isinstance(x, ast.Await) for x in walk_shallow(n.ast))]
+        ck.need(R2, len(stop) == 1, "run_forever: awaited _stop_sblocks call not recognised")
+        okarg = [norm(a) for a in node_calls(stop[0], '_stop_sblocks')[0].args] == ['started_blocks']
+        nothing = [n for n in g.nodes if n.kind == 'branch' and not n.polarity and
+                   norm(n.test.ast) == 'started_blocks']
+        simw = nodes_writing_attr(g, '_simtask')
+        ck.need(R2, simw, "run_forever does not record the simulation task")
+        p = g.path_avoiding(simw[0], [g.exit, g.raise_exit], avoid=stop + nothing, start_successors_only=True)
+        ck.ob(R2, f"{rf.fid} :: clean-up on all paths", p is None and okarg,
+              "once the simulation task is recorded, every path to an exit stops the started blocks"
+              if p is None and okarg else
+              "a path leaves run_forever without stopping the blocks that were started", rf, stop[0].ast,
+              witness=path_witness(g, p))
+        # the pending-cancellation absorber precedes the clean-up
+        hs = [n for n in g.nodes if n.kind == 'handler' and g.pred[n.id] and
+              handler_types(n.ast) == ['CancelledError']]
+        ok = any(g.dominates(h, stop[0]) or stop[0].id in g.reachable_from(h) for h in hs)
+        main = [n for n in g.nodes if n.kind == 'handler' and g.pred[n.id] and
+                set(handler_types(n.ast)) >= {'Exception', 'CancelledError'}]
+        absorb = nodes_where(g, lambda n: any(isinstance(x, ast.Await) and call_name(x.value) == 'sleep'
+                                              for x in walk_shallow(n.ast)) and main and
+                             n.id in g.reachable_from(main[0]) and stop[0].id in g.reachable_from(n))
+        okabs = bool(absorb) and any(
+            any(g.nodes[v].kind == 'dispatch' and any(g.nodes[h].kind == 'handler' and
+                                                      handler_types(g.nodes[h].ast) == ['CancelledError']
+                                                      for h, _ in g.succ[v])
+                for v, lab in g.succ[a.id] if lab == 'exc') for a in absorb)
+        ck.ob(R2, f"{rf.fid} :: pending cancellation absorbed", okabs,
+              "a cancellation left pending by abort()+raise is absorbed before the clean-up awaits"
+              if okabs else "a pending cancellation could interrupt the clean-up", rf,
+              absorb[0].ast if absorb else rf.node)
 
-    from rules.shared import pending_cancel_absorbed
-    pending_cancel_absorbed(ck, R2)
+        from rules.shared import pending_cancel_absorbed
+        pending_cancel_absorbed(ck, R2)
 
-    # ------------------------------------------------------------------ R08.3
-    sites = []
-    for fi in prog.pkg_funcs():
-        for x in own_nodes(fi.node):
-            if isinstance(x, ast.Call) and call_name(x) == 'cancel' and '_simtask' in recv(x):
-                sites.append((fi, x))
-    ok = len(sites) == 1 and sites[0][0].fid == f'{CIRC}.abort'
-    ck.ob(R3, "who cancels the simulation task", ok,
-          f"self._simtask.cancel() sites: {[f.fid for f, _ in sites]}" +
-          ('' if ok else " -- a second cancellation could interrupt the clean-up"), None,
-          'edzed/simulator.py:1')
-    if sites:
-        fi, x = sites[0]
-        ga = ck.cfg(fi.fid, 'M0')
-        n = ga.node_of(x)[0]
-        ok = ga.has_guard(n, 'self._error is None', True)
-        ck.ob(R3, f"{fi.fid} :: cancel only for the first error", ok,
-              "the cancellation is requested only while the error slot was empty" if ok else
-              "abort() can cancel the task again after an error was recorded", fi, x)
-    run = prog.func('simulator:run')
-    cancels = [x for x in own_nodes(run.node) if isinstance(x, ast.Call) and call_name(x) == 'cancel']
-    gr = ck.cfg(run.fid, 'M0')
-    okc = len(cancels) == 1
-    if okc:
-        n = gr.node_of(cancels[0])[0]
-        loop = [l for l in gr.nodes if l.kind == 'for' and gr.dominates(l, n)][-1]
-        okc = norm(loop.ast.iter) == 'all_tasks[1:]' and recv(cancels[0]) == norm(loop.ast.target)
-    ck.ob(R3, f"{run.fid} :: cancels supporting tasks only", okc,
-          "run() cancels all_tasks[1:] (never the simulation task; that goes through abort())"
-          if okc else "run() may cancel the simulation task directly", run,
-          cancels[0] if cancels else run.node)
+    with ck.section('R08.3'):
+        # ------------------------------------------------------------------ R08.3
+        sites = []
+        for fi in prog.pkg_funcs():
+            for x in own_nodes(fi.node):
+                if isinstance(x, ast.Call) and call_name(x) == 'cancel' and '_simtask' in recv(x):
+                    sites.append((fi, x))
+        ok = len(sites) == 1 and sites[0][0].fid == f'{CIRC}.abort'
+        ck.ob(R3, "who cancels the simulation task", ok,
+              f"self._simtask.cancel() sites: {[f.fid for f, _ in sites]}" +
+              ('' if ok else " -- a second cancellation could interrupt the clean-up"), None,
+              'edzed/simulator.py:1')
+        if sites:
+            fi, x = sites[0]
+            ga = ck.cfg(fi.fid, 'M0')
+            n = ga.node_of(x)[0]
+            ok = ga.has_guard(n, 'self._error is None', True)
+            ck.ob(R3, f"{fi.fid} :: cancel only for the first error", ok,
+                  "the cancellation is requested only while the error slot was empty" if ok else
+                  "abort() can cancel the task again after an error was recorded", fi, x)
+        run = prog.func('simulator:run')
+        cancels = [x for x in own_nodes(run.node) if isinstance(x, ast.Call) and call_name(x) == 'cancel']
+        gr = ck.cfg(run.fid, 'M0')
+        okc = len(cancels) == 1
+        if okc:
+            n = gr.node_of(cancels[0])[0]
+            loop = [l for l in gr.nodes if l.kind == 'for' and gr.dominates(l, n)][-1]
+            okc = norm(loop.ast.iter) == 'all_tasks[1:]' and recv(cancels[0]) == norm(loop.ast.target)
+        ck.ob(R3, f"{run.fid} :: cancels supporting tasks only", okc,
+              "run() cancels all_tasks[1:] (never the simulation task; that goes through abort())"
+              if okc else "run() may cancel the simulation task directly", run,
+              cancels[0] if cancels else run.node)
 
-    # ------------------------------------------------------------------ R08.4
-    ss = circ.methods['_stop_sblocks']
-    gs = ck.cfg(ss.fid, 'M1')
-    bparam = ss.node.args.args[1].arg
-    asyncd = nodes_where(gs, lambda n: isinstance(n.ast, ast.Assign) and isinstance(n.ast.value, ast.SetComp))
-    ok = len(asyncd) == 1
-    an = sn = None
-    if ok:
-        comp = asyncd[0].ast.value
-        gen = comp.generators[0]
-        an = norm(asyncd[0].ast.targets[0])
-        facts = {canon_fact(e, p) for c in gen.ifs for e, p in decompose(c, True)}
-        v = norm(gen.target)
-        ok = norm(comp.elt) == v and f'{bparam}.intersection(self.getblocks(addons.AddonAsync))' == norm(gen.iter) \
-            and canon_fact(ast.parse(f"{v}.has_method('stop_async')", mode='eval').body, True) in facts \
-            and canon_fact(ast.parse(f"{v}.stop_timeout > 0.0", mode='eval').body, True) in facts
-        syncd = nodes_where(gs, lambda n: isinstance(n.ast, ast.Assign) and
-                            norm(n.ast.value) == f'{bparam}.difference({an})')
-        ok = ok and len(syncd) == 1
-        sn = norm(syncd[0].ast.targets[0]) if syncd else None
-    ck.ob(R4, f"{ss.fid} :: partition", ok,
-          f"{an} = started blocks with stop_async and a positive stop_timeout; {sn} = the rest "
-          f"(set difference): every started block is in exactly one group" if ok else
-          "the started blocks are not partitioned into an async and a sync group", ss,
-          asyncd[0].ast if asyncd else ss.node)
-    stops = nodes_calling(gs, 'stop')
-    loops = {}
-    for st in stops:
-        l = [x for x in gs.nodes if x.kind == 'for' and gs.dominates(x, st)]
-        if l:
-            loops.setdefault(norm(l[-1].ast.iter), []).append(st)
-    ok = an is not None and set(loops) == {an, sn} and all(len(v) == 1 for v in loops.values())
-    ck.ob(R4, f"{ss.fid} :: one stop() per group member", ok,
-          "each group is iterated once with one blk.stop() call" if ok else
-          f"stop() is called in loops over {sorted(loops)}; expected exactly one per group", ss, ss.node)
-    for st in stops:
-        isolated = False
-        for v, lab in gs.succ[st.id]:
-            if lab == 'exc':
-                d = gs.nodes[v]
-                hn = [gs.nodes[h] for h, _ in gs.succ[d.id] if gs.nodes[h].kind == 'handler']
-                isolated = bool(hn) and all('Exception' in handler_types(h.ast) or
-                                            'BaseException' in handler_types(h.ast) for h in hn[:1]) \
-                    and not any(gs.nodes[u].kind == 'raise' for h in hn for u in gs.reachable_from(h)
-                                if False)
-                if isolated:
-                    isolated = not handler_reraises(ss, hn[0].ast) and not any(
-                        isinstance(x, ast.Call) and call_name(x) == 'abort'
-                        for b in hn[0].ast.body for x in walk_shallow(b))
-        ck.ob(R4, f"{ss.fid} :: stop() isolated (loop over "
-              f"{[k for k, v in loops.items() if st in v]})", isolated,
-              "an error in one block's stop() is logged and does not prevent the others" if isolated
-              else "an exception from stop() escapes the loop (the remaining blocks would not be "
-              "stopped) or escalates", ss, st.ast)
-    if an is not None and an in loops and sn in loops:
-        a_stop, s_stop = loops[an][0], loops[sn][0]
-        rt = nodes_calling(gs, '_run_tasks')
-        ok = len(rt) == 1 and rt[0].id in gs.reachable_from(a_stop) and \
-            a_stop.id not in gs.reachable_from(s_stop) and rt[0].id not in gs.reachable_from(s_stop) and \
-            any(isinstance(x, ast.Await) for x in walk_shallow(rt[0].ast))
-        # whenever the async group is non-empty the sync loop comes after the bounded wait
-        nonempty = [n for n in gs.nodes if n.kind == 'branch' and n.polarity and norm(n.test.ast) == an]
-        ok = ok and bool(nonempty) and gs.path_avoiding(nonempty[0], [s_stop], avoid=rt) is None
-        ck.ob(R4, f"{ss.fid} :: async group first", ok,
-              "the async group is stopped and its stop_async tasks awaited before any block of "
-              "the sync group is stopped" if ok else
-              "a sync block can be stopped before the async clean-up completed", ss, s_stop.ast)
-        wt = nodes_where(gs, lambda n: isinstance(n.ast, ast.Assign) and isinstance(n.ast.value, ast.ListComp)
-                         and any(call_name(c) in ('create_task', 'ensure_future')
-                                 for c in [x for x in walk_shallow(n.ast.value) if isinstance(x, ast.Call)]))
-        ok = len(wt) == 1
+    with ck.section('R08.4'):
+        # ------------------------------------------------------------------ R08.4
+        ss = circ.methods['_stop_sblocks']
+        gs = ck.cfg(ss.fid, 'M1')
+        bparam = ss.node.args.args[1].arg
+        asyncd = nodes_where(gs, lambda n: isinstance(n.ast, ast.Assign) and isinstance(n.ast.value, ast.SetComp))
+        ok = len(asyncd) == 1
+        an = sn = None
         if ok:
-            comp = wt[0].ast.value
-            v = norm(comp.generators[0].target)
-            elt = comp.elt
-            ok = norm(comp.generators[0].iter) == an and not comp.generators[0].ifs and \
-                isinstance(elt, ast.Tuple) and len(elt.elts) == 3 and norm(elt.elts[0]) == v and \
-                norm(elt.elts[2]) == f'{v}.stop_timeout' and \
-                norm(elt.elts[1].args[0]) == f'{v}.stop_async()' and \
-                norm(node_calls(rt[0], '_run_tasks')[0].args[1]) == norm(wt[0].ast.targets[0]) and \
-                wt[0].id in gs.reachable_from(a_stop)
-            ys = [n for n in nodes_calling(gs, 'sleep') if n.id in gs.reachable_from(a_stop)
-                  and wt[0].id in gs.reachable_from(n)]
-            ok = ok and bool(ys)
-        ck.ob(R4, f"{ss.fid} :: stop_async tasks", ok,
-              "after stop() and a yield, every async block's stop_async() runs as a task handed to "
-              "_run_tasks with the block's stop_timeout" if ok else
-              "stop_async() is not awaited (bounded by stop_timeout) for every block of the async "
-              "group after its stop()", ss, wt[0].ast if wt else ss.node)
+            comp = asyncd[0].ast.value
+            gen = comp.generators[0]
+            an = norm(asyncd[0].ast.targets[0])
+            facts = {canon_fact(e, p) for c in gen.ifs for e, p in decompose(c, True)}
+            v = norm(gen.target)
+            ok = norm(comp.elt) == v and f'{bparam}.intersection(self.getblocks(addons.AddonAsync))' == norm(gen.iter) \
+                and canon_fact(ast.parse(f"{v}.has_method('stop_async')", mode='eval').body, True) in facts \
+                and canon_fact(ast.parse(f"{v}.stop_timeout > 0.0", mode='eval').body, True) in facts
+            syncd = nodes_where(gs, lambda n: isinstance(n.ast, ast.Assign) and
+                                norm(n.ast.value) == f'{bparam}.difference({an})')
+            ok = ok and len(syncd) == 1
+            sn = norm(syncd[0].ast.targets[0]) if syncd else None
+        ck.ob(R4, f"{ss.fid} :: partition", ok,
+              f"{an} = started blocks with stop_async and a positive stop_timeout; {sn} = the rest "
+              f"(set difference): every started block is in exactly one group" if ok else
+              "the started blocks are not partitioned into an async and a sync group", ss,
+              asyncd[0].ast if asyncd else ss.node)
+        stops = nodes_calling(gs, 'stop')
+        loops = {}
+        for st in stops:
+            l = [x for x in gs.nodes if x.kind == 'for' and gs.dominates(x, st)]
+            if l:
+                loops.setdefault(norm(l[-1].ast.iter), []).append(st)
+        ok = an is not None and set(loops) == {an, sn} and all(len(v) == 1 for v in loops.values())
+        ck.ob(R4, f"{ss.fid} :: one stop() per group member", ok,
+              "each group is iterated once with one blk.stop() call" if ok else
+              f"stop() is called in loops over {sorted(loops)}; expected exactly one per group", ss, ss.node)
+        for st in stops:
+            isolated = False
+            for v, lab in gs.succ[st.id]:
+                if lab == 'exc':
+                    d = gs.nodes[v]
+                    hn = [gs.nodes[h] for h, _ in gs.succ[d.id] if gs.nodes[h].kind == 'handler']
+                    isolated = bool(hn) and all('Exception' in handler_types(h.ast) or
+                                                'BaseException' in handler_types(h.ast) for h in hn[:1]) \
+                        and not any(gs.nodes[u].kind == 'raise' for h in hn for u in gs.reachable_from(h)
+                                    if False)
+                    if isolated:
+                        isolated = not handler_reraises(ss, hn[0].ast) and not any(
+                            isinstance(x, ast.Call) and call_name(x) == 'abort'
+                            for b in hn[0].ast.body for x in walk_shallow(b))
+            ck.ob(R4, f"{ss.fid} :: stop() isolated (loop over "
+                  f"{[k for k, v in loops.items() if st in v]})", isolated,
+                  "an error in one block's stop() is logged and does not prevent the others" if isolated
+                  else "an exception from stop() escapes the loop (the remaining blocks would not be "
+                  "stopped) or escalates", ss, st.ast)
+        if an is not None and an in loops and sn in loops:
+            a_stop, s_stop = loops[an][0], loops[sn][0]
+            rt = nodes_calling(gs, '_run_tasks')
+            ok = len(rt) == 1 and rt[0].id in gs.reachable_from(a_stop) and \
+                a_stop.id not in gs.reachable_from(s_stop) and rt[0].id not in gs.reachable_from(s_stop) and \
+                any(isinstance(x, ast.Await) for x in walk_shallow(rt[0].ast))
+            # whenever the async group is non-empty the sync loop comes after the bounded wait
+            nonempty = [n for n in gs.nodes if n.kind == 'branch' and n.polarity and norm(n.test.ast) == an]
+            ok = ok and bool(nonempty) and gs.path_avoiding(nonempty[0], [s_stop], avoid=rt) is None
+            ck.ob(R4, f"{ss.fid} :: async group first", ok,
+                  "the async group is stopped and its stop_async tasks awaited before any block of "
+                  "the sync group is stopped" if ok else
+                  "a sync block can be stopped before the async clean-up completed", ss, s_stop.ast)
+            wt = nodes_where(gs, lambda n: isinstance(n.ast, ast.Assign) and isinstance(n.ast.value, ast.ListComp)
+                             and any(call_name(c) in ('create_task', 'ensure_future')
+                                     for c in [x for x in walk_shallow(n.ast.value) if isinstance(x, ast.Call)]))
+            ok = len(wt) == 1
+            if ok:
+                comp = wt[0].ast.value
+                v = norm(comp.generators[0].target)
+                elt = comp.elt
+                ok = norm(comp.generators[0].iter) == an and not comp.generators[0].ifs and \
+                    isinstance(elt, ast.Tuple) and len(elt.elts) == 3 and norm(elt.elts[0]) == v and \
+                    norm(elt.elts[2]) == f'{v}.stop_timeout' and \
+                    norm(elt.elts[1].args[0]) == f'{v}.stop_async()' and \
+                    norm(node_calls(rt[0], '_run_tasks')[0].args[1]) == norm(wt[0].ast.targets[0]) and \
+                    wt[0].id in gs.reachable_from(a_stop)
+                ys = [n for n in nodes_calling(gs, 'sleep') if n.id in gs.reachable_from(a_stop)
+                      and wt[0].id in gs.reachable_from(n)]
+                ok = ok and bool(ys)
+            ck.ob(R4, f"{ss.fid} :: stop_async tasks", ok,
+                  "after stop() and a yield, every async block's stop_async() runs as a task handed to "
+                  "_run_tasks with the block's stop_timeout" if ok else
+                  "stop_async() is not awaited (bounded by stop_timeout) for every block of the async "
+                  "group after its stop()", ss, wt[0].ast if wt else ss.node)
 
-    # ------------------------------------------------------------------ R08.5
-    _task_ownership(ck, R5)
+    with ck.section('R08.5'):
+        # ------------------------------------------------------------------ R08.5
+        _task_ownership(ck, R5)
 
-    # ------------------------------------------------------------------ R08.7
-    n7 = 0
-    for meth in ('start', 'stop', 'stop_async'):
-        n7 += superchain(ck, R7, meth)
-    ck.need(R7, n7 >= 12, f"only {n7} start/stop/stop_async overrides found")
-    for ci in prog.classes.values():
-        if ci.module.name == 'demo':
-            continue
-        names = [cname(c) for c in ci.mro]
-        if 'SBlock' not in names:
-            continue
-        idx = names.index('SBlock')
-        late = [c for c in ci.mro[idx + 1:] if not isinstance(c, str) and
-                any(cname(b) == 'Addon' for b in c.mro) and cname(c) != 'Addon']
-        late += [c for c in ci.mro[idx + 1:] if cname(c) == 'Addon']
-        if any(cname(c) == 'Addon' for c in ci.mro) or late:
-            ck.ob(R7, f"{ci.qual} :: add-ons before SBlock", not late,
-                  "all add-ons precede SBlock in the MRO" if not late else
-                  f"add-on(s) {[cname(c) for c in late]} follow SBlock in the MRO of {ci.name}: "
-                  f"their start/stop/event overrides are bypassed", None,
-                  f"{ci.module.path}:{ci.node.lineno}")
-    amt = prog.func('addons:AddonMainTask.stop_async')
-    ga = ck.cfg(amt.fid, 'M1')
-    rda = ck.rdefs(amt.fid, 'M1')
+    with ck.section('R08.7'):
+        # ------------------------------------------------------------------ R08.7
+        n7 = 0
+        for meth in ('start', 'stop', 'stop_async'):
+            n7 += superchain(ck, R7, meth)
+        ck.need(R7, n7 >= 12, f"only {n7} start/stop/stop_async overrides found")
+        for ci in prog.classes.values():
+            if ci.module.name == 'demo':
+                continue
+            names = [cname(c) for c in ci.mro]
+            if 'SBlock' not in names:
+                continue
+            idx = names.index('SBlock')
+            late = [c for c in ci.mro[idx + 1:] if not isinstance(c, str) and
+                    any(cname(b) == 'Addon' for b in c.mro) and cname(c) != 'Addon']
+            late += [c for c in ci.mro[idx + 1:] if cname(c) == 'Addon']
+            if any(cname(c) == 'Addon' for c in ci.mro) or late:
+                ck.ob(R7, f"{ci.qual} :: add-ons before SBlock", not late,
+                      "all add-ons precede SBlock in the MRO" if not late else
+                      f"add-on(s) {[cname(c) for c in late]} follow SBlock in the MRO of {ci.name}: "
+                      f"their start/stop/event overrides are bypassed", None,
+                      f"{ci.module.path}:{ci.node.lineno}")
+        amt = prog.func('addons:AddonMainTask.stop_async')
+        ga = ck.cfg(amt.fid, 'M1')
+        rda = ck.rdefs(amt.fid, 'M1')
 
-    def _is_mtask(node_, text):
-        if text == 'self._mtask':
-            return True
-        if text.isidentifier():
-            vals_ = rda.value_exprs(node_, text)
-            return bool(vals_) and all(not isinstance(v_, str) and norm(v_) == 'self._mtask' for v_ in vals_)
-        return False
-    cn = [n for n in nodes_calling(ga, 'cancel') if _is_mtask(n, recv(node_calls(n, 'cancel')[0]))]
-    aw = nodes_where(ga, lambda n: any(isinstance(x, ast.Await) and _is_mtask(n, norm(x.value))
-                                       for x in walk_shallow(n.ast)))
-    ok = len(cn) == 1 and len(aw) == 1 and ga.dominates(cn[0], aw[0])
-    hs = [n for n in ga.nodes if n.kind == 'handler' and ga.pred[n.id]]
-    ok = ok and any(handler_types(h.ast) == ['CancelledError'] for h in hs)
-    resets = [w for w in nodes_writing_attr(ga, '_mtask') if is_const(written_value(w, '_mtask'), None)]
-    ok = ok and bool(resets) and bool(aw) and \
-        ga.path_avoiding(aw[0], [ga.exit, ga.raise_exit], avoid=resets, start_successors_only=True) is None
-    ck.ob(R7, amt.fid, ok, "the main task is cancelled, awaited (cancellation absorbed) and the "
-          "attribute reset on all paths" if ok else
-          "AddonMainTask.stop_async does not cancel-and-await its task on all paths", amt, amt.node)
+        def _is_mtask(node_, text):
+            if text == 'self._mtask':
+                return True
+            if text.isidentifier():
+                vals_ = rda.value_exprs(node_, text)
+                return bool(vals_) and all(not isinstance(v_, str) and norm(v_) == 'self._mtask' for v_ in vals_)
+            return False
+        cn = [n for n in nodes_calling(ga, 'cancel') if _is_mtask(n, recv(node_calls(n, 'cancel')[0]))]
+        aw = nodes_where(ga, lambda n: any(isinstance(x, ast.Await) and _is_mtask(n, norm(x.value))
+                                           for x in walk_shallow(n.ast)))
+        ok = len(cn) == 1 and len(aw) == 1 and ga.dominates(cn[0], aw[0])
+        hs = [n for n in ga.nodes if n.kind == 'handler' and ga.pred[n.id]]
+        ok = ok and any(handler_types(h.ast) == ['CancelledError'] for h in hs)
+        resets = [w for w in nodes_writing_attr(ga, '_mtask') if is_const(written_value(w, '_mtask'), None)]
+        ok = ok and bool(resets) and bool(aw) and \
+            ga.path_avoiding(aw[0], [ga.exit, ga.raise_exit], avoid=resets, start_successors_only=True) is None
+        ck.ob(R7, amt.fid, ok, "the main task is cancelled, awaited (cancellation absorbed) and the "
+              "attribute reset on all paths" if ok else
+              "AddonMainTask.stop_async does not cancel-and-await its task on all paths", amt, amt.node)
 
-    # ------------------------------------------------------------------ R08.8
-    of = prog.func('blocklib.sblocks2:OutputFunc.stop')
-    go = ck.cfg(of.fid, 'M0')
-    put = nodes_calling(go, '_event_put')
-    sup = nodes_where(go, lambda n: any(is_super_call(c, 'stop') for c in node_calls(n)))
-    ok = len(put) == 1 and len(sup) == 1 and go.has_guard(put[0], 'self._stop_data is not None', True) and \
-        sup[0].id in go.reachable_from(put[0]) and put[0].id not in go.reachable_from(sup[0])
-    if ok:
-        c = node_calls(put[0], '_event_put')[0]
-        ok = len(c.keywords) == 1 and c.keywords[0].arg is None and norm(c.keywords[0].value) == 'self._stop_data'
-        skip = go.path_avoiding(go.entry, [go.exit], avoid=put)
-        ok = ok and (skip is None or any(n.kind == 'branch' and not n.polarity and
-                                         '_stop_data' in norm(n.test.ast) for n in skip))
-    ck.ob(R8, of.fid, ok, "stop_data (if any) is delivered as the block's last action, before "
-          "super().stop()" if ok else "OutputFunc.stop does not deliver stop_data before "
-          "super().stop()", of, of.node)
-    oa = prog.func('blocklib.sblocks2:OutputAsync.stop')
-    gq = ck.cfg(oa.fid, 'M0')
-    put = nodes_calling(gq, '_event_put')
-    sent = nodes_where(gq, lambda n: any(call_name(c) == 'put_nowait' and recv(c) == 'self._queue' and
-                                         c.args and is_const(c.args[0], None) for c in node_calls(n)))
-    sup = nodes_where(gq, lambda n: any(is_super_call(c, 'stop') for c in node_calls(n)))
-    ok = len(put) == 1 and len(sent) == 1 and len(sup) == 1 and \
-        sent[0].id in gq.reachable_from(put[0]) and put[0].id not in gq.reachable_from(sent[0]) and \
-        must_pass(gq, gq.entry, sent, [gq.exit]) is None and sup[0].id in gq.reachable_from(sent[0])
-    ck.ob(R8, oa.fid, ok, "stop_data is enqueued before the sentinel; the sentinel is always "
-          "enqueued; then super().stop()" if ok else
-          "OutputAsync.stop enqueues the sentinel before the stop data, or not on every path", oa, oa.node)
-    osa = prog.func('blocklib.sblocks2:OutputAsync.stop_async')
-    t1 = [norm(n.ast) for n in gq.nodes if n.kind == 'test' and '_stop_data' in norm(n.ast)]
-    gz = ck.cfg(osa.fid, 'M0')
-    t2 = [norm(n.ast) for n in gz.nodes if n.kind == 'test' and '_stop_data' in norm(n.ast)]
-    def _mode_fact(g_):
-        """canonical (text, polarity) of the conjunct that compares the control coroutine"""
-        from sa.cfg import canon_fact as _cf, decompose as _dc
-        for n_ in g_.nodes:
-            if n_.kind == 'test' and '_stop_data' in norm(n_.ast):
-                for e_, p_ in _dc(n_.ast, True):
-                    if '_ctrl_coro' in norm(e_) and not isinstance(e_, ast.BoolOp):
-                        return _cf(e_, p_)
-        return None
-    f1, f2 = _mode_fact(gq), _mode_fact(gz)
-    ok = len(t1) == 1 and len(t2) == 1 and f1 is not None and f2 is not None and \
-        f1[0] == f2[0] and f1[1] != f2[1] and f2[1] is True and '_ctrl_start' in f2[0]
-    ck.ob(R8, "OutputAsync stop / stop_async mode tests", ok,
-          f"`{t1[0] if t1 else None}` and `{t2[0] if t2 else None}` are complementary: stop_data "
-          f"is processed exactly once" if ok else
-          f"the mode tests of stop ({t1}) and stop_async ({t2}) are not complementary: stop_data "
-          f"may be processed twice or never", oa, oa.node)
-    aw = nodes_where(gz, lambda n: any(isinstance(x, ast.Await) and norm(x.value) == 'self._ctrl_task'
-                                       for x in walk_shallow(n.ast)))
-    late = nodes_where(gz, lambda n: any(call_name(c) == '_output_coro_wrapper' for c in node_calls(n)))
-    ok = len(aw) == 1 and len(late) == 1 and late[0].id in gz.reachable_from(aw[0]) and \
-        aw[0].id not in gz.reachable_from(late[0])
-    ck.ob(R8, osa.fid, ok, "the control task is awaited first; start-mode stop_data runs after "
-          "all other work" if ok else
-          "start-mode stop_data is not processed after the control task finished", osa, osa.node)
-
-    from rules.shared import stop_data_condition
-    stop_data_condition(ck, R8)
-
-    # ------------------------------------------------------------------ R08.9
-    g0 = ck.cfg(rf.fid, 'M0')
-    guard = [n for n in g0.nodes if n.kind == 'test' and norm(n.ast) == 'self._simtask is not None']
-    ok = len(guard) >= 1 and all(g0.dominates(guard[0], n) for n in g0.nodes
-                                 if n.kind in ('stmt', 'test', 'for', 'with') and n is not guard[0]
-                                 and n.id in g0.reachable() and not (isinstance(n.ast, ast.Expr)
-                                                                     and isinstance(n.ast.value, ast.Constant)))
-    rs = nodes_where(g0, lambda n: isinstance(n.ast, ast.Raise) and
-                     g0.has_guard(n, 'self._simtask is not None', True), kinds=('stmt',))
-    wr = nodes_writing_attr(g0, '_simtask')
-    ok = ok and bool(rs) and all(g0.has_guard(w, 'self._simtask is not None', False) for w in wr)
-    ck.ob(R9, f"{rf.fid} :: single use", ok,
-          "a second run_forever() raises before anything else happens" if ok else
-          "run_forever can be entered again after it was started", rf, guard[0].ast if guard else rf.node)
-    own(ck, R9, '_simtask', {f'{CIRC}.__init__': 'None', rf.fid: 'the current task'})
-    okv = bool(wr) and all(norm(written_value(w, '_simtask')) == 'asyncio.current_task()' for w in wr)
-    ck.ob(R9, f"{rf.fid} :: recorded task", okv, "_simtask = asyncio.current_task()" if okv else
-          "_simtask is not the task running run_forever", rf, wr[0].ast if wr else rf.node)
-
-    # ------------------------------------------------------------------ R08.10
-    ts = prog.cls('simulator:_TerminatingSignal')
-    en, ex, hd = ts.methods.get('__enter__'), ts.methods.get('__exit__'), ts.methods.get('_handler')
-    ck.need(R10, en and ex and hd, "_TerminatingSignal methods not found")
-    ge = ck.cfg(en.fid, 'M0')
-    sv = nodes_where(ge, lambda n: isinstance(n.ast, ast.Assign) and
-                     norm(n.ast.value) == 'signal.getsignal(self._signo)')
-    inst = nodes_where(ge, lambda n: any(norm(c.func) == 'signal.signal' for c in node_calls(n)))
-    ok = len(sv) == 1 and len(inst) == 1 and ge.dominates(sv[0], inst[0]) and \
-        [norm(a) for a in node_calls(inst[0])[0].args] == ['self._signo', 'self._handler']
-    ck.ob(R10, en.fid, ok, "the previous handler is saved, then ours installed" if ok else
-          "__enter__ does not save the previous handler before installing", en, en.node)
-    gx = ck.cfg(ex.fid, 'M0')
-    rest = nodes_where(gx, lambda n: any(norm(c.func) == 'signal.signal' and
-                                         [norm(a) for a in c.args] == ['self._signo', norm(sv[0].ast.targets[0])]
-                                         for c in node_calls(n))) if sv else []
-    skip = gx.path_avoiding(gx.entry, [gx.exit], avoid=rest)
-    ok = bool(rest) and (skip is None or any(n.kind == 'branch' and n.polarity and
-                                             norm(n.test.ast) == 'self._signo is None' for n in skip))
-    rets = return_nodes(gx)
-    ok = ok and all(r.ast.value is None or is_const(r.ast.value, False) or is_const(r.ast.value, None)
-                    for r in rets)
-    ck.ob(R10, ex.fid, ok, "__exit__ restores the saved handler whenever one was installed and "
-          "does not suppress exceptions" if ok else
-          "the signal handler is not restored on every path (or exceptions are suppressed)", ex, ex.node)
-    calls = [x for x in own_nodes(hd.node) if isinstance(x, ast.Call)]
-    ab = [x for x in calls if any('abort' in norm(a) for a in x.args)]
-    ok = len(ab) == 1 and (norm(ab[0].func) == 'call_soon' or call_name(ab[0]) == 'call_soon_threadsafe') \
-        and 'CancelledError' in norm(ab[0].args[1]) if ab and len(ab[0].args) > 1 else False
-    cs = [x for x in own_nodes(hd.node) if isinstance(x, ast.Assign) and norm(x.targets[0]) == 'call_soon']
-    ok = ok and (call_name(ab[0]) == 'call_soon_threadsafe' or
-                 (cs and norm(cs[0].value).endswith('call_soon_threadsafe')))
-    direct = [x for x in calls if call_name(x) == 'abort']
-    ck.ob(R10, hd.fid, bool(ok) and not direct,
-          "the handler only schedules abort(CancelledError) with call_soon_threadsafe" if ok and
-          not direct else "the signal handler touches the circuit directly", hd, hd.node)
-
-    # ------------------------------------------------------------------ R08.11
-    docs = directives(ck.repo, 'events.rst')
-    ck.need(R11, docs, "docs/events.rst not found")
-    evc = prog.cls('block:Event')
-    cb = prog.cls('blocklib.sblocks1:ControlBlock')
-    import re
-    n11 = 0
-    for d in docs:
-        if d['owner'] != 'Event' or d['kind'] != 'method':
-            continue
-        text = description(ck.repo, d)
-        m = re.search(r"shortcut for ``edzed\.Event\('_ctrl', '(\w+)'\)``", text)
-        if not m:
-            continue
-        n11 += 1
-        x = m.group(1)
-        meth = evc.methods.get(d['name'])
-        ok = meth is not None and 'classmethod' in meth.decorators
-        why = f"Event.{d['name']}() does not exist as a classmethod"
+    with ck.section('R08.8'):
+        # ------------------------------------------------------------------ R08.8
+        of = prog.func('blocklib.sblocks2:OutputFunc.stop')
+        go = ck.cfg(of.fid, 'M0')
+        put = nodes_calling(go, '_event_put')
+        sup = nodes_where(go, lambda n: any(is_super_call(c, 'stop') for c in node_calls(n)))
+        ok = len(put) == 1 and len(sup) == 1 and go.has_guard(put[0], 'self._stop_data is not None', True) and \
+            sup[0].id in go.reachable_from(put[0]) and put[0].id not in go.reachable_from(sup[0])
         if ok:
-            rets = [r for r in own_nodes(meth.node) if isinstance(r, ast.Return)]
-            ok = len(rets) == 1 and isinstance(rets[0].value, ast.Call) and \
-                norm(rets[0].value.func) == meth.node.args.args[0].arg and \
-                [ast.literal_eval(a) for a in rets[0].value.args if isinstance(a, ast.Constant)] == ['_ctrl', x]
-            why = f"Event.{d['name']}() does not return cls('_ctrl', {x!r})"
-        ok2 = f'_event_{x}' in cb.methods
-        ck.ob(R11, f"docs/events.rst :: Event.{d['name']}()", ok and ok2,
-              f"Event.{d['name']}() = cls('_ctrl', {x!r}) and ControlBlock handles {x!r}"
-              if ok and ok2 else (why if not ok else f"ControlBlock has no handler _event_{x}") +
-              f" (documented at {d['file']}:{d['line']})", meth, f"{d['file']}:{d['line']}")
-    ck.need(R11, n11 >= 2, "fewer documented control-event constructors than confirmed by hand")
+            c = node_calls(put[0], '_event_put')[0]
+            ok = len(c.keywords) == 1 and c.keywords[0].arg is None and norm(c.keywords[0].value) == 'self._stop_data'
+            skip = go.path_avoiding(go.entry, [go.exit], avoid=put)
+            ok = ok and (skip is None or any(n.kind == 'branch' and not n.polarity and
+                                             '_stop_data' in norm(n.test.ast) for n in skip))
+        ck.ob(R8, of.fid, ok, "stop_data (if any) is delivered as the block's last action, before "
+              "super().stop()" if ok else "OutputFunc.stop does not deliver stop_data before "
+              "super().stop()", of, of.node)
+        oa = prog.func('blocklib.sblocks2:OutputAsync.stop')
+        gq = ck.cfg(oa.fid, 'M0')
+        put = nodes_calling(gq, '_event_put')
+        sent = nodes_where(gq, lambda n: any(call_name(c) == 'put_nowait' and recv(c) == 'self._queue' and
+                                             c.args and is_const(c.args[0], None) for c in node_calls(n)))
+        sup = nodes_where(gq, lambda n: any(is_super_call(c, 'stop') for c in node_calls(n)))
+        ok = len(put) == 1 and len(sent) == 1 and len(sup) == 1 and \
+            sent[0].id in gq.reachable_from(put[0]) and put[0].id not in gq.reachable_from(sent[0]) and \
+            must_pass(gq, gq.entry, sent, [gq.exit]) is None and sup[0].id in gq.reachable_from(sent[0])
+        ck.ob(R8, oa.fid, ok, "stop_data is enqueued before the sentinel; the sentinel is always "
+              "enqueued; then super().stop()" if ok else
+              "OutputAsync.stop enqueues the sentinel before the stop data, or not on every path", oa, oa.node)
+        osa = prog.func('blocklib.sblocks2:OutputAsync.stop_async')
+        t1 = [norm(n.ast) for n in gq.nodes if n.kind == 'test' and '_stop_data' in norm(n.ast)]
+        gz = ck.cfg(osa.fid, 'M0')
+        t2 = [norm(n.ast) for n in gz.nodes if n.kind == 'test' and '_stop_data' in norm(n.ast)]
+        def _mode_fact(g_):
+            """canonical (text, polarity) of the conjunct that compares the control coroutine"""
+            from sa.cfg import canon_fact as _cf, decompose as _dc
+            for n_ in g_.nodes:
+                if n_.kind == 'test' and '_stop_data' in norm(n_.ast):
+                    for e_, p_ in _dc(n_.ast, True):
+                        if '_ctrl_coro' in norm(e_) and not isinstance(e_, ast.BoolOp):
+                            return _cf(e_, p_)
+            return None
+        f1, f2 = _mode_fact(gq), _mode_fact(gz)
+        ok = len(t1) == 1 and len(t2) == 1 and f1 is not None and f2 is not None and \
+            f1[0] == f2[0] and f1[1] != f2[1] and f2[1] is True and '_ctrl_start' in f2[0]
+        ck.ob(R8, "OutputAsync stop / stop_async mode tests", ok,
+              f"`{t1[0] if t1 else None}` and `{t2[0] if t2 else None}` are complementary: stop_data "
+              f"is processed exactly once" if ok else
+              f"the mode tests of stop ({t1}) and stop_async ({t2}) are not complementary: stop_data "
+              f"may be processed twice or never", oa, oa.node)
+        aw = nodes_where(gz, lambda n: any(isinstance(x, ast.Await) and norm(x.value) == 'self._ctrl_task'
+                                           for x in walk_shallow(n.ast)))
+        late = nodes_where(gz, lambda n: any(call_name(c) == '_output_coro_wrapper' for c in node_calls(n)))
+        ok = len(aw) == 1 and len(late) == 1 and late[0].id in gz.reachable_from(aw[0]) and \
+            aw[0].id not in gz.reachable_from(late[0])
+        ck.ob(R8, osa.fid, ok, "the control task is awaited first; start-mode stop_data runs after "
+              "all other work" if ok else
+              "start-mode stop_data is not processed after the control task finished", osa, osa.node)
+
+        from rules.shared import stop_data_condition
+        stop_data_condition(ck, R8)
+
+    with ck.section('R08.9'):
+        # ------------------------------------------------------------------ R08.9
+        g0 = ck.cfg(rf.fid, 'M0')
+        guard = [n for n in g0.nodes if n.kind == 'test' and norm(n.ast) == 'self._simtask is not None']
+        ok = len(guard) >= 1 and all(g0.dominates(guard[0], n) for n in g0.nodes
+                                     if n.kind in ('stmt', 'test', 'for', 'with') and n is not guard[0]
+                                     and n.id in g0.reachable() and not (isinstance(n.ast, ast.Expr)
+                                                                         and isinstance(n.ast.value, ast.Constant)))
+        rs = nodes_where(g0, lambda n: isinstance(n.ast, ast.Raise) and
+                         g0.has_guard(n, 'self._simtask is not None', True), kinds=('stmt',))
+        wr = nodes_writing_attr(g0, '_simtask')
+        ok = ok and bool(rs) and all(g0.has_guard(w, 'self._simtask is not None', False) for w in wr)
+        ck.ob(R9, f"{rf.fid} :: single use", ok,
+              "a second run_forever() raises before anything else happens" if ok else
+              "run_forever can be entered again after it was started", rf, guard[0].ast if guard else rf.node)
+        own(ck, R9, '_simtask', {f'{CIRC}.__init__': 'None', rf.fid: 'the current task'})
+        okv = bool(wr) and all(norm(written_value(w, '_simtask')) == 'asyncio.current_task()' for w in wr)
+        ck.ob(R9, f"{rf.fid} :: recorded task", okv, "_simtask = asyncio.current_task()" if okv else
+              "_simtask is not the task running run_forever", rf, wr[0].ast if wr else rf.node)
+
+    with ck.section('R08.10'):
+        # ------------------------------------------------------------------ R08.10
+        ts = prog.cls('simulator:_TerminatingSignal')
+        en, ex, hd = ts.methods.get('__enter__'), ts.methods.get('__exit__'), ts.methods.get('_handler')
+        ck.need(R10, en and ex and hd, "_TerminatingSignal methods not found")
+        ge = ck.cfg(en.fid, 'M0')
+        sv = nodes_where(ge, lambda n: isinstance(n.ast, ast.Assign) and
+                         norm(n.ast.value) == 'signal.getsignal(self._signo)')
+        inst = nodes_where(ge, lambda n: any(norm(c.func) == 'signal.signal' for c in node_calls(n)))
+        ok = len(sv) == 1 and len(inst) == 1 and ge.dominates(sv[0], inst[0]) and \
+            [norm(a) for a in node_calls(inst[0])[0].args] == ['self._signo', 'self._handler']
+        ck.ob(R10, en.fid, ok, "the previous handler is saved, then ours installed" if ok else
+              "__enter__ does not save the previous handler before installing", en, en.node)
+        gx = ck.cfg(ex.fid, 'M0')
+        rest = nodes_where(gx, lambda n: any(norm(c.func) == 'signal.signal' and
+                                             [norm(a) for a in c.args] == ['self._signo', norm(sv[0].ast.targets[0])]
+                                             for c in node_calls(n))) if sv else []
+        skip = gx.path_avoiding(gx.entry, [gx.exit], avoid=rest)
+        ok = bool(rest) and (skip is None or any(n.kind == 'branch' and n.polarity and
+                                                 norm(n.test.ast) == 'self._signo is None' for n in skip))
+        rets = return_nodes(gx)
+        ok = ok and all(r.ast.value is None or is_const(r.ast.value, False) or is_const(r.ast.value, None)
+                        for r in rets)
+        ck.ob(R10, ex.fid, ok, "__exit__ restores the saved handler whenever one was installed and "
+              "does not suppress exceptions" if ok else
+              "the signal handler is not restored on every path (or exceptions are suppressed)", ex, ex.node)
+        calls = [x for x in own_nodes(hd.node) if isinstance(x, ast.Call)]
+        ab = [x for x in calls if any('abort' in norm(a) for a in x.args)]
+        ok = len(ab) == 1 and (norm(ab[0].func) == 'call_soon' or call_name(ab[0]) == 'call_soon_threadsafe') \
+            and 'CancelledError' in norm(ab[0].args[1]) if ab and len(ab[0].args) > 1 else False
+        cs = [x for x in own_nodes(hd.node) if isinstance(x, ast.Assign) and norm(x.targets[0]) == 'call_soon']
+        ok = ok and (call_name(ab[0]) == 'call_soon_threadsafe' or
+                     (cs and norm(cs[0].value).endswith('call_soon_threadsafe')))
+        direct = [x for x in calls if call_name(x) == 'abort']
+        ck.ob(R10, hd.fid, bool(ok) and not direct,
+              "the handler only schedules abort(CancelledError) with call_soon_threadsafe" if ok and
+              not direct else "the signal handler touches the circuit directly", hd, hd.node)
+
+    with ck.section('R08.11'):
+        # ------------------------------------------------------------------ R08.11
+        docs = directives(ck.repo, 'events.rst')
+        ck.need(R11, docs, "docs/events.rst not found")
+        evc = prog.cls('block:Event')
+        cb = prog.cls('blocklib.sblocks1:ControlBlock')
+        import re
+        n11 = 0
+        for d in docs:
+            if d['owner'] != 'Event' or d['kind'] != 'method':
+                continue
+            text = description(ck.repo, d)
+            m = re.search(r"shortcut for ``edzed\.Event\('_ctrl', '(\w+)'\)``", text)
+            if not m:
+                continue
+            n11 += 1
+            x = m.group(1)
+            meth = evc.methods.get(d['name'])
+            ok = meth is not None and 'classmethod' in meth.decorators
+            why = f"Event.{d['name']}() does not exist as a classmethod"
+            if ok:
+                rets = [r for r in own_nodes(meth.node) if isinstance(r, ast.Return)]
+                ok = len(rets) == 1 and isinstance(rets[0].value, ast.Call) and \
+                    norm(rets[0].value.func) == meth.node.args.args[0].arg and \
+                    [ast.literal_eval(a) for a in rets[0].value.args if isinstance(a, ast.Constant)] == ['_ctrl', x]
+                why = f"Event.{d['name']}() does not return cls('_ctrl', {x!r})"
+            ok2 = f'_event_{x}' in cb.methods
+            ck.ob(R11, f"docs/events.rst :: Event.{d['name']}()", ok and ok2,
+                  f"Event.{d['name']}() = cls('_ctrl', {x!r}) and ControlBlock handles {x!r}"
+                  if ok and ok2 else (why if not ok else f"ControlBlock has no handler _event_{x}") +
+                  f" (documented at {d['file']}:{d['line']})", meth, f"{d['file']}:{d['line']}")
+        ck.need(R11, n11 >= 2, "fewer documented control-event constructors than confirmed by hand")
 
 
 def _task_ownership(ck, R5):
